@@ -422,7 +422,7 @@ func runC19(c *Ctx) {
 		if short(fnPkgPath(fn)) != "rt/middleware" || p.isTestFn(fn) {
 			continue
 		}
-		for _, in := range instrs(fn) {
+		for _, in := range ownInstrs(fn) { // helpers are reachable functions of their own
 			if pn, ok := in.(*ssa.Panic); ok {
 				nPanic++
 				okP := false
